@@ -1,6 +1,7 @@
 """C19 - a failed output write is never reported as success."""
 from .. import kernel, pipetrace
 from ..common import Machinery, log, read_ndjson
+from ..inputs import REF, mutate, sam
 
 PIPE = ["toma", "tomawrap", "samvar", "variants", "snps", "udlist"]
 POST = ["closest", "closestn", "closestntable", "toprank", "topranktable"]
@@ -106,6 +107,11 @@ def run(ctx):
     for c, args in CLI.items():
         a = [x if x != "@OUT" else "/dev/full" for x in args]
         cvecs.append({"id": "devfull-" + c, "fam": "cli", "sig": c.split("-")[0], "files": FILES, "args": a, "reps": 1})
+    isam = dict(FILES)
+    isam["indel.sam"] = {"text": sam([("q%d" % i, 0, 0, "10M2I8M3D%dM" % (len(REF) - 21), mutate(REF, i)[:10] + "TT" + mutate(REF, i)[10:18] + mutate(REF, i)[21:]) for i in range(3)])}
+    for which, a in (("insertions", ["--insertions-out", "/dev/full", "--deletions-out", "@del.txt"]), ("deletions", ["--insertions-out", "@ins.txt", "--deletions-out", "/dev/full"])):
+        cvecs.append({"id": "devfull-samindels-" + which, "fam": "cli", "sig": "samindels", "files": isam, "reps": 1,
+                      "args": ["sam", "indels", "-s", "@indel.sam", "--threshold", "1"] + a})
     nq = dict(FILES)
     nq["q0.csv"] = {"text": "query,SNPs,ambiguities,SNPcount,ambcount\n"}
     for tab in ([], ["--table"]):
